@@ -66,7 +66,8 @@ def check(ctx):
         buf, types = g.datagram()
         extra = [[ctx.rng.choice([1, 2, 3, 4, 7, 4095])], [2, ctx.rng.randrange(0, 5000), 1],
                  # unknown types that become 1 or 2 when truncated or reduced (mod 64, 256, 65536, 2^31; byte-swapped)
-                 [ctx.rng.choice(ALIAS)], [ctx.rng.choice(ALIAS), ctx.rng.choice(ALIAS)]] + sflowlib.FILTERS_DUP
+                 [ctx.rng.choice(ALIAS)], [ctx.rng.choice(ALIAS), ctx.rng.choice(ALIAS)]] + sflowlib.FILTERS_DUP + \
+                [sflowlib.FILTERS_LONG[len(jobs) % len(sflowlib.FILTERS_LONG)]]
         jobs.append({"msgs": [{"buf": buf, "filter": f} for f in sflowlib.FILTERS + extra]})
     res = sflowlib.run(ctx, drv, jobs, "f")
     rows = []
